@@ -9,20 +9,30 @@ Local Open Scope N_scope.
 
 (* a character that get_char hands through unchanged and without a report *)
 Definition ok_char (c : N) : bool := negb (c =? 13) && negb (c =? 0) && negb (bad_char c).
+(* U+000D and U+0000 never reach a name, a comment or a processing instruction of a parsed tree (the input
+   preprocessing turns them into U+000A and U+FFFD); a reported character (control character, noncharacter)
+   is kept and costs one parse-error token *)
+Definition pre_ok (c : N) : bool := negb (c =? 13) && negb (c =? 0).
+Definition char_errs (c : N) : list token := if bad_char c then [TError] else [].
+Definition bad_errs (s : list N) : list token := flat_map char_errs s.
+Lemma rev_bad_cons : forall c s l, rev (bad_errs (c :: s)) ++ l = rev (bad_errs s) ++ char_errs c ++ l.
+Proof. intros. unfold bad_errs. simpl. rewrite rev_app_distr, <- app_assoc. unfold char_errs. destruct (bad_char c); reflexivity. Qed.
+Lemma bad_errs_app : forall a b, bad_errs (a ++ b) = bad_errs a ++ bad_errs b.
+Proof. intros. unfold bad_errs. apply flat_map_app. Qed.
 
 (* the characters the tokenizer accepts in the positions of a name *)
 Definition tag_first (c : N) : bool :=
-  ok_char c && negb (memb c [33]) && negb (memb c [47]) && negb (memb c [63]) && negb (memb c [9; 10; 32; 58; 60; 62]).
+  pre_ok c && negb (memb c [33]) && negb (memb c [47]) && negb (memb c [63]) && negb (memb c [9; 10; 32; 58; 60; 62]).
 Definition tag_rest (c : N) : bool :=
-  ok_char c && negb (memb c [9; 10; 32]) && negb (memb c [62]) && negb (memb c [47]).
+  pre_ok c && negb (memb c [9; 10; 32]) && negb (memb c [62]) && negb (memb c [47]).
 Definition an_first (c : N) : bool :=
-  ok_char c && negb (memb c [9; 10; 32]) && negb (memb c [62]) && negb (memb c [47]) && negb (memb c [58]).
+  pre_ok c && negb (memb c [9; 10; 32]) && negb (memb c [62]) && negb (memb c [47]) && negb (memb c [58]).
 Definition an_rest (c : N) : bool :=
-  ok_char c && negb (memb c [61]) && negb (memb c [62]) && negb (memb c [9; 10; 32]) && negb (memb c [47]).
+  pre_ok c && negb (memb c [61]) && negb (memb c [62]) && negb (memb c [9; 10; 32]) && negb (memb c [47]).
 Definition etag_first (c : N) : bool :=
-  ok_char c && negb (memb c [62]) && negb (memb c [9; 10; 32; 60; 58]).
+  pre_ok c && negb (memb c [62]) && negb (memb c [9; 10; 32; 60; 58]).
 Definition etag_rest (c : N) : bool :=
-  ok_char c && negb (memb c [9; 10; 32]) && negb (memb c [47]) && negb (memb c [62]).
+  pre_ok c && negb (memb c [9; 10; 32]) && negb (memb c [47]) && negb (memb c [62]).
 
 Lemma ok_char_parts : forall c, ok_char c = true -> (c =? 13) = false /\ (c =? 0) = false /\ bad_char c = false.
 Proof.
@@ -57,21 +67,24 @@ Ltac fin := unfold mkM; apply xs_refl.
 Ltac rw_all := repeat match goal with
   | E : (_ =? _) = false |- _ => rewrite E
   | E : bad_char _ = false |- _ => rewrite E
+  | E : bad_char _ = true |- _ => rewrite E
   | E : memb _ _ = false |- _ => rewrite E
   end.
 Ltac sym :=
   apply xsteps_one; unfold XLexBase.xstep, step, mkM; cbn [mc cref st]; bodies;
   cbn -[bad_char N.eqb N.add memb]; unfold CR, LF, REPL;
   repeat (rw_all; cbn -[bad_char N.eqb N.add memb]).
-Ltac cls H := split_class H; apply negb_true_iff in H.
+Ltac okc H := unfold pre_ok in H; split_class H; apply negb_true_iff in H.
+Ltac cls H := split_class H; okc H.
+(* one step that reads a symbolic character: with or without its parse error *)
+Ltac rd := unfold char_errs; match goal with |- context [bad_char ?c] => destruct (bad_char c) eqn:BC end;
+           do 2 eexists; (split; [sym; reflexivity|reflexivity]).
 
-Lemma tagstate_first : forall b cu tk tn ta an av c q o k, tag_first c = true -> exists k',
+Lemma tagstate_first : forall b cu tk tn ta an av c q o k, tag_first c = true -> exists o' k',
   xsteps (mkM b XTagState false cu false None tk tn ta an av (c :: q) o k)
-         (mkM b XTagName false c false None TStartTag [c] [] an av q o k').
-Proof.
-  intros b cu tk tn ta an av c q o k H. unfold tag_first in H. cls H.
-  eexists. sym. reflexivity.
-Qed.
+         (mkM b XTagName false c false None TStartTag [c] [] an av q o' k') /\
+  otoks o' = char_errs c ++ otoks o.
+Proof. intros b cu tk tn ta an av c q o k H. unfold tag_first in H. cls H. rd. Qed.
 
 
 (* ---- finish_attribute (xml) in closed form *)
@@ -122,21 +135,24 @@ Ltac fa o1 T1 :=
   end.
 
 (* ---- the states of a start tag, one character at a time *)
-Lemma tagname_char : forall b cu tk tn ta an av c q o k, tag_rest c = true -> exists k',
+Lemma tagname_char : forall b cu tk tn ta an av c q o k, tag_rest c = true -> exists o' k',
   xsteps (mkM b XTagName false cu false None tk tn ta an av (c :: q) o k)
-         (mkM b XTagName false c false None tk (tn ++ [c]) ta an av q o k').
-Proof. intros b cu tk tn ta an av c q o k H. unfold tag_rest in H. cls H. eexists. sym. reflexivity. Qed.
+         (mkM b XTagName false c false None tk (tn ++ [c]) ta an av q o' k') /\
+  otoks o' = char_errs c ++ otoks o.
+Proof. intros b cu tk tn ta an av c q o k H. unfold tag_rest in H. cls H. rd. Qed.
 
-Lemma tagname_chars : forall cs b cu tk tn ta an av q o k, forallb tag_rest cs = true -> exists cu' k',
+Lemma tagname_chars : forall cs b cu tk tn ta an av q o k, forallb tag_rest cs = true -> exists cu' o' k',
   xsteps (mkM b XTagName false cu false None tk tn ta an av (cs ++ q) o k)
-         (mkM b XTagName false cu' false None tk (tn ++ cs) ta an av q o k').
+         (mkM b XTagName false cu' false None tk (tn ++ cs) ta an av q o' k') /\
+  otoks o' = rev (bad_errs cs) ++ otoks o.
 Proof.
   induction cs as [|c cs IH]; intros b cu tk tn ta an av q o k H.
-  - exists cu, k. rewrite app_nil_r. apply xs_refl.
+  - exists cu, o, k. rewrite app_nil_r. split; [apply xs_refl|reflexivity].
   - simpl in H. apply andb_true_iff in H. destruct H as [H1 H2].
-    destruct (tagname_char b cu tk tn ta an av c (cs ++ q) o k H1) as (k1 & S1).
-    destruct (IH b c tk (tn ++ [c]) ta an av q o k1 H2) as (cu2 & k2 & S2).
-    exists cu2, k2. rewrite <- app_assoc in S2. eapply xsteps_trans; [exact S1|exact S2].
+    destruct (tagname_char b cu tk tn ta an av c (cs ++ q) o k H1) as (o1 & k1 & S1 & T1).
+    destruct (IH b c tk (tn ++ [c]) ta an av q o1 k1 H2) as (cu2 & o2 & k2 & S2 & T2).
+    exists cu2, o2, k2. rewrite <- app_assoc in S2. split; [eapply xsteps_trans; [exact S1|exact S2]|].
+    rewrite T2, T1, rev_bad_cons. reflexivity.
 Qed.
 
 Lemma tagname_space : forall b cu tk tn ta an av q o k, exists k',
@@ -153,34 +169,38 @@ Proof. intros. eexists. one. fin. Qed.
 Lemma anb_first : forall b cu tk tn ta an av c q o k, an_first c = true -> exists o' k',
   xsteps (mkM b XTagAttrNameBefore false cu false None tk tn ta an av (c :: q) o k)
          (mkM b XTagAttrName false c false None tk tn (fa_ta ta an av) [c] (fa_av an av) q o' k') /\
-  otoks o' = fa_errs ta an ++ otoks o.
+  otoks o' = fa_errs ta an ++ char_errs c ++ otoks o.
 Proof.
   intros b cu tk tn ta an av c q o k H. unfold an_first in H. cls H.
   assert (X : exists o' k', xstep (mkM b XTagAttrNameBefore false cu false None tk tn ta an av (c :: q) o k) =
             (mkM b XTagAttrName false c false None tk tn (fa_ta ta an av) [c] (fa_av an av) q o' k', SContinue) /\
-            otoks o' = fa_errs ta an ++ otoks o).
-  { unfold XLexBase.xstep, step, mkM. cbn [mc cref st]. bodies.
-    cbn -[bad_char N.eqb N.add memb finish_attribute]; unfold CR, LF, REPL;
-    repeat (rw_all; cbn -[bad_char N.eqb N.add memb finish_attribute]).
-    fa o1 T1. cbn -[N.add]. do 2 eexists. split; [reflexivity|exact T1]. }
+            otoks o' = fa_errs ta an ++ char_errs c ++ otoks o).
+  { unfold char_errs. destruct (bad_char c) eqn:BC.
+    all: unfold XLexBase.xstep, step, mkM; cbn [mc cref st]; bodies.
+    all: cbn -[bad_char N.eqb N.add memb finish_attribute]; unfold CR, LF, REPL;
+      repeat (rw_all; cbn -[bad_char N.eqb N.add memb finish_attribute]).
+    all: fa o1 T1; cbn -[N.add]; do 2 eexists; (split; [reflexivity|exact T1]). }
   destruct X as (o' & k' & X & T). exists o', k'. split; auto. apply xsteps_one. exact X.
 Qed.
 
-Lemma aname_char : forall b cu tk tn ta an av c q o k, an_rest c = true -> exists k',
+Lemma aname_char : forall b cu tk tn ta an av c q o k, an_rest c = true -> exists o' k',
   xsteps (mkM b XTagAttrName false cu false None tk tn ta an av (c :: q) o k)
-         (mkM b XTagAttrName false c false None tk tn ta (an ++ [c]) av q o k').
-Proof. intros b cu tk tn ta an av c q o k H. unfold an_rest in H. cls H. eexists. sym. reflexivity. Qed.
+         (mkM b XTagAttrName false c false None tk tn ta (an ++ [c]) av q o' k') /\
+  otoks o' = char_errs c ++ otoks o.
+Proof. intros b cu tk tn ta an av c q o k H. unfold an_rest in H. cls H. rd. Qed.
 
-Lemma aname_chars : forall cs b cu tk tn ta an av q o k, forallb an_rest cs = true -> exists cu' k',
+Lemma aname_chars : forall cs b cu tk tn ta an av q o k, forallb an_rest cs = true -> exists cu' o' k',
   xsteps (mkM b XTagAttrName false cu false None tk tn ta an av (cs ++ q) o k)
-         (mkM b XTagAttrName false cu' false None tk tn ta (an ++ cs) av q o k').
+         (mkM b XTagAttrName false cu' false None tk tn ta (an ++ cs) av q o' k') /\
+  otoks o' = rev (bad_errs cs) ++ otoks o.
 Proof.
   induction cs as [|c cs IH]; intros b cu tk tn ta an av q o k H.
-  - exists cu, k. rewrite app_nil_r. apply xs_refl.
+  - exists cu, o, k. rewrite app_nil_r. split; [apply xs_refl|reflexivity].
   - simpl in H. apply andb_true_iff in H. destruct H as [H1 H2].
-    destruct (aname_char b cu tk tn ta an av c (cs ++ q) o k H1) as (k1 & S1).
-    destruct (IH b c tk tn ta (an ++ [c]) av q o k1 H2) as (cu2 & k2 & S2).
-    exists cu2, k2. rewrite <- app_assoc in S2. eapply xsteps_trans; [exact S1|exact S2].
+    destruct (aname_char b cu tk tn ta an av c (cs ++ q) o k H1) as (o1 & k1 & S1 & T1).
+    destruct (IH b c tk tn ta (an ++ [c]) av q o1 k1 H2) as (cu2 & o2 & k2 & S2 & T2).
+    exists cu2, o2, k2. rewrite <- app_assoc in S2. split; [eapply xsteps_trans; [exact S1|exact S2]|].
+    rewrite T2, T1, rev_bad_cons. reflexivity.
 Qed.
 
 (* the equals sign and the opening quotation mark *)
@@ -226,11 +246,14 @@ Fixpoint pend (ta : list (str * str)) (an av : str) (l : list (str * str)) : lis
   | [] => (ta, an, av)
   | (n, v) :: r => pend (fa_ta ta an av) n v r
   end.
-(* the parse errors on the way, oldest first: duplicate attributes, reported characters of the values *)
+(* the parse errors on the way, oldest first: reported characters of the names, duplicate attributes (found when
+   the next name begins, after its first character has been read), reported characters of the values *)
+Definition an_errs (ta : list (str * str)) (an : str) (n : str) : list token :=
+  match n with [] => fa_errs ta an | c :: r => char_errs c ++ fa_errs ta an ++ bad_errs r end.
 Fixpoint pend_errs (ta : list (str * str)) (an av : str) (l : list (str * str)) : list token :=
   match l with
   | [] => []
-  | (n, v) :: r => fa_errs ta an ++ err_toks v ++ pend_errs (fa_ta ta an av) n v r
+  | (n, v) :: r => an_errs ta an n ++ err_toks v ++ pend_errs (fa_ta ta an av) n v r
   end.
 
 (* after the separating space: name="value" *)
@@ -240,7 +263,7 @@ Lemma attr_after_space : forall n v b cu tn ta an av rest o k,
     xsteps (mkM b XTagAttrNameBefore false cu false None TStartTag tn ta an av
                 (n ++ [61; 34] ++ escape true v ++ [34] ++ rest) o k)
            (mkM b XTagAttrNameBefore false cu' false None TStartTag tn (fa_ta ta an av) n v rest o' k') /\
-    otoks o' = rev (fa_errs ta an ++ err_toks v) ++ otoks o.
+    otoks o' = rev (an_errs ta an n ++ err_toks v) ++ otoks o.
 Proof.
   intros n v b cu tn ta an av rest o k PA OK. unfold raw_ok in OK. simpl in OK.
   apply andb_true_iff in OK. destruct OK as [NO VN].
@@ -248,17 +271,17 @@ Proof.
   destruct (anb_first b cu TStartTag tn ta an av c (r ++ [61; 34] ++ escape true v ++ [34] ++ rest) o k N1)
     as (o1 & k1 & S1 & T1). rewrite PA in S1.
   destruct (aname_chars r b c TStartTag tn (fa_ta ta an av) [c] [] ([61; 34] ++ escape true v ++ [34] ++ rest) o1 k1 N2)
-    as (cu2 & k2 & S2).
-  destruct (aname_eq_quote b cu2 TStartTag tn (fa_ta ta an av) ([c] ++ r) [] (escape true v ++ [34] ++ rest) o1 k2)
+    as (cu2 & o2 & k2 & S2 & T2).
+  destruct (aname_eq_quote b cu2 TStartTag tn (fa_ta ta an av) ([c] ++ r) [] (escape true v ++ [34] ++ rest) o2 k2)
     as (k3 & S3).
-  destruct (attr_value_lex tb TB simd ent c1 sk E5 v b 34 TStartTag tn (fa_ta ta an av) ([c] ++ r) [] rest o1 k3 VN)
+  destruct (attr_value_lex tb TB simd ent c1 sk E5 v b 34 TStartTag tn (fa_ta ta an av) ([c] ++ r) [] rest o2 k3 VN)
     as (cu4 & o4 & k4 & S4 & T4).
   destruct (attr_quote tb TB simd ent c1 sk b cu4 TStartTag tn (fa_ta ta an av) ([c] ++ r) ([] ++ v) rest o4 k4) as (k5 & S5).
   exists 34, o4, k5. split.
   - simpl app in *. eapply xsteps_trans; [exact S1|]. eapply xsteps_trans; [exact S2|].
     eapply xsteps_trans; [exact S3|]. eapply xsteps_trans; [exact S4|exact S5].
-  - rewrite T4, T1. rewrite rev_app_distr, <- app_assoc. f_equal.
-    unfold fa_errs. destruct (fa_dup ta an); reflexivity.
+  - rewrite T4, T2, T1. cbn [an_errs]. rewrite !rev_app_distr, <- !app_assoc. f_equal. f_equal.
+    unfold fa_errs, char_errs. destruct (fa_dup ta an), (bad_char c); reflexivity.
 Qed.
 
 Lemma attrs_loop : forall l b cu tn ta an av rest o k,
@@ -289,8 +312,8 @@ Qed.
 (* the attribute list a start tag token carries, and the parse errors before it *)
 Definition tag_attrs_of (l : list (str * str)) : list (str * str) :=
   let '(ta, an, av) := pend [] [] [] l in fa_ta ta an av.
-Definition tag_errs_of (l : list (str * str)) : list token :=
-  let '(ta, an, av) := pend [] [] [] l in pend_errs [] [] [] l ++ fa_errs ta an.
+Definition tag_errs_of (nm : str) (l : list (str * str)) : list token :=
+  bad_errs nm ++ (let '(ta, an, av) := pend [] [] [] l in pend_errs [] [] [] l ++ fa_errs ta an).
 
 (* (c) a whole start tag *)
 Theorem start_tag_lex : forall nm l b cu tk tn ta rest o k,
@@ -299,7 +322,7 @@ Theorem start_tag_lex : forall nm l b cu tk tn ta rest o k,
     xsteps (mkM b XData false cu false None tk tn ta [] []
                 ([60] ++ nm ++ flat_map render_raw l ++ [62] ++ rest) o k)
            (mkM b XData false 62 false None TStartTag [] [] [] [] rest o' k') /\
-    otoks o' = TTag TStartTag nm false (tag_attrs_of l) false :: rev (tag_errs_of l) ++ otoks o.
+    otoks o' = TTag TStartTag nm false (tag_attrs_of l) false :: rev (tag_errs_of nm l) ++ otoks o.
 Proof.
   intros nm l b cu tk tn ta rest o k NO LO.
   destruct nm as [|c r]; [discriminate|]. simpl in NO. apply andb_true_iff in NO. destruct NO as [N1 N2].
@@ -308,14 +331,14 @@ Proof.
   - (* no attributes: '>' directly after the name *)
     set (Q1 := 62 :: rest).
     destruct (data_lt tb TB simd ent c1 sk b cu tk tn ta [] [] (c :: r ++ Q1) o k) as (k1 & S1).
-    destruct (tagstate_first b 60 tk tn ta [] [] c (r ++ Q1) o k1 N1) as (k2 & S2).
-    destruct (tagname_chars r b c TStartTag [c] [] [] [] Q1 o k2 N2) as (cu3 & k3 & S3).
-    destruct (gt_emits XTagName (or_intror eq_refl) b cu3 ([c] ++ r) [] [] [] rest o k3) as (o4 & k4 & S4 & T4).
+    destruct (tagstate_first b 60 tk tn ta [] [] c (r ++ Q1) o k1 N1) as (o2 & k2 & S2 & T2).
+    destruct (tagname_chars r b c TStartTag [c] [] [] [] Q1 o2 k2 N2) as (cu3 & o3 & k3 & S3 & T3).
+    destruct (gt_emits XTagName (or_intror eq_refl) b cu3 ([c] ++ r) [] [] [] rest o3 k3) as (o4 & k4 & S4 & T4).
     exists o4, k4. split.
     + change ([60] ++ (c :: r) ++ flat_map render_raw [] ++ [62] ++ rest) with (60 :: c :: r ++ Q1).
       eapply xsteps_trans; [exact S1|]. eapply xsteps_trans; [exact S2|].
       eapply xsteps_trans; [exact S3|exact S4].
-    + rewrite T4. reflexivity.
+    + rewrite T4, T3, T2. cbn [pend pend_errs fa_errs fa_dup negb andb app]. rewrite app_nil_r, rev_bad_cons. reflexivity.
   - simpl in LO. apply andb_true_iff in LO. destruct LO as [LO1 LO2].
     set (Q3 := flat_map render_raw l ++ [62] ++ rest).
     set (Q2 := n ++ [61; 34] ++ escape true v ++ [34] ++ Q3).
@@ -324,10 +347,10 @@ Proof.
     { unfold Q1, Q2, Q3. cbn [flat_map]. unfold render_raw at 1. cbn [fst snd]. rewrite <- !app_assoc. reflexivity. }
     rewrite EQ. clear EQ.
     destruct (data_lt tb TB simd ent c1 sk b cu tk tn ta [] [] (c :: r ++ Q1) o k) as (k1 & S1).
-    destruct (tagstate_first b 60 tk tn ta [] [] c (r ++ Q1) o k1 N1) as (k2 & S2).
-    destruct (tagname_chars r b c TStartTag [c] [] [] [] Q1 o k2 N2) as (cu3 & k3 & S3).
-    destruct (tagname_space b cu3 TStartTag ([c] ++ r) [] [] [] Q2 o k3) as (k4 & S4).
-    destruct (attr_after_space n v b 32 ([c] ++ r) [] [] [] Q3 o k4 eq_refl LO1)
+    destruct (tagstate_first b 60 tk tn ta [] [] c (r ++ Q1) o k1 N1) as (o2 & k2 & S2 & T2).
+    destruct (tagname_chars r b c TStartTag [c] [] [] [] Q1 o2 k2 N2) as (cu3 & o3 & k3 & S3 & T3).
+    destruct (tagname_space b cu3 TStartTag ([c] ++ r) [] [] [] Q2 o3 k3) as (k4 & S4).
+    destruct (attr_after_space n v b 32 ([c] ++ r) [] [] [] Q3 o3 k4 eq_refl LO1)
       as (cu5 & o5 & k5 & S5 & T5).
     assert (PA' : fa_av n v = []).
     { unfold raw_ok in LO1. simpl in LO1. destruct n; [discriminate|reflexivity]. }
@@ -340,10 +363,10 @@ Proof.
     exists o7, k7. split.
     + eapply xsteps_trans; [exact S1|]. eapply xsteps_trans; [exact S2|]. eapply xsteps_trans; [exact S3|].
       eapply xsteps_trans; [exact S4|]. eapply xsteps_trans; [exact S5|]. eapply xsteps_trans; [exact S6|exact S7].
-    + rewrite T7, T6, T5. f_equal.
+    + rewrite T7, T6, T5, T3, T2. f_equal.
       rewrite !rev_app_distr. rewrite <- !app_assoc.
       assert (RE : rev (fa_errs ta' an') = fa_errs ta' an') by (unfold fa_errs; destruct (fa_dup ta' an'); reflexivity).
-      rewrite RE. reflexivity.
+      rewrite RE. do 3 f_equal. rewrite <- (rev_bad_cons c r (otoks o)). reflexivity.
 Qed.
 
 
@@ -356,26 +379,30 @@ Lemma tagstate_slash : forall b cu tk tn ta an av q o k, exists k',
          (mkM b XEndTagState false 47 false None tk tn ta an av q o k').
 Proof. intros. eexists. one. fin. Qed.
 
-Lemma etag_first_step : forall b cu tk tn ta an av c q o k, etag_first c = true -> exists k',
+Lemma etag_first_step : forall b cu tk tn ta an av c q o k, etag_first c = true -> exists o' k',
   xsteps (mkM b XEndTagState false cu false None tk tn ta an av (c :: q) o k)
-         (mkM b XEndTagName false c false None TEndTag [c] [] an av q o k').
-Proof. intros b cu tk tn ta an av c q o k H. unfold etag_first in H. cls H. eexists. sym. reflexivity. Qed.
+         (mkM b XEndTagName false c false None TEndTag [c] [] an av q o' k') /\
+  otoks o' = char_errs c ++ otoks o.
+Proof. intros b cu tk tn ta an av c q o k H. unfold etag_first in H. cls H. rd. Qed.
 
-Lemma etagname_char : forall b cu tk tn ta an av c q o k, etag_rest c = true -> exists k',
+Lemma etagname_char : forall b cu tk tn ta an av c q o k, etag_rest c = true -> exists o' k',
   xsteps (mkM b XEndTagName false cu false None tk tn ta an av (c :: q) o k)
-         (mkM b XEndTagName false c false None tk (tn ++ [c]) ta an av q o k').
-Proof. intros b cu tk tn ta an av c q o k H. unfold etag_rest in H. cls H. eexists. sym. reflexivity. Qed.
+         (mkM b XEndTagName false c false None tk (tn ++ [c]) ta an av q o' k') /\
+  otoks o' = char_errs c ++ otoks o.
+Proof. intros b cu tk tn ta an av c q o k H. unfold etag_rest in H. cls H. rd. Qed.
 
-Lemma etagname_chars : forall cs b cu tk tn ta an av q o k, forallb etag_rest cs = true -> exists cu' k',
+Lemma etagname_chars : forall cs b cu tk tn ta an av q o k, forallb etag_rest cs = true -> exists cu' o' k',
   xsteps (mkM b XEndTagName false cu false None tk tn ta an av (cs ++ q) o k)
-         (mkM b XEndTagName false cu' false None tk (tn ++ cs) ta an av q o k').
+         (mkM b XEndTagName false cu' false None tk (tn ++ cs) ta an av q o' k') /\
+  otoks o' = rev (bad_errs cs) ++ otoks o.
 Proof.
   induction cs as [|c cs IH]; intros b cu tk tn ta an av q o k H.
-  - exists cu, k. rewrite app_nil_r. apply xs_refl.
+  - exists cu, o, k. rewrite app_nil_r. split; [apply xs_refl|reflexivity].
   - simpl in H. apply andb_true_iff in H. destruct H as [H1 H2].
-    destruct (etagname_char b cu tk tn ta an av c (cs ++ q) o k H1) as (k1 & S1).
-    destruct (IH b c tk (tn ++ [c]) ta an av q o k1 H2) as (cu2 & k2 & S2).
-    exists cu2, k2. rewrite <- app_assoc in S2. eapply xsteps_trans; [exact S1|exact S2].
+    destruct (etagname_char b cu tk tn ta an av c (cs ++ q) o k H1) as (o1 & k1 & S1 & T1).
+    destruct (IH b c tk (tn ++ [c]) ta an av q o1 k1 H2) as (cu2 & o2 & k2 & S2 & T2).
+    exists cu2, o2, k2. rewrite <- app_assoc in S2. split; [eapply xsteps_trans; [exact S1|exact S2]|].
+    rewrite T2, T1, rev_bad_cons. reflexivity.
 Qed.
 
 Lemma etag_gt : forall b cu tn q o k, exists o' k',
@@ -393,17 +420,17 @@ Theorem end_tag_lex : forall nm b cu tk tn ta rest o k, etag_name_ok nm = true -
   exists o' k',
     xsteps (mkM b XData false cu false None tk tn ta [] [] ([60; 47] ++ nm ++ [62] ++ rest) o k)
            (mkM b XData false 62 false None TEndTag [] [] [] [] rest o' k') /\
-    otoks o' = TTag TEndTag nm false [] false :: otoks o.
+    otoks o' = TTag TEndTag nm false [] false :: rev (bad_errs nm) ++ otoks o.
 Proof.
   intros nm b cu tk tn ta rest o k NO.
   destruct nm as [|c r]; [discriminate|]. simpl in NO. apply andb_true_iff in NO. destruct NO as [N1 N2].
   set (Q1 := 62 :: rest).
   destruct (data_lt tb TB simd ent c1 sk b cu tk tn ta [] [] (47 :: c :: r ++ Q1) o k) as (k1 & S1).
   destruct (tagstate_slash b 60 tk tn ta [] [] (c :: r ++ Q1) o k1) as (k2 & S2).
-  destruct (etag_first_step b 47 tk tn ta [] [] c (r ++ Q1) o k2 N1) as (k3 & S3).
-  destruct (etagname_chars r b c TEndTag [c] [] [] [] Q1 o k3 N2) as (cu4 & k4 & S4).
-  destruct (etag_gt b cu4 ([c] ++ r) rest o k4) as (o5 & k5 & S5 & T5).
-  exists o5, k5. split; [|exact T5].
+  destruct (etag_first_step b 47 tk tn ta [] [] c (r ++ Q1) o k2 N1) as (o3 & k3 & S3 & T3).
+  destruct (etagname_chars r b c TEndTag [c] [] [] [] Q1 o3 k3 N2) as (cu4 & o4 & k4 & S4 & T4).
+  destruct (etag_gt b cu4 ([c] ++ r) rest o4 k4) as (o5 & k5 & S5 & T5).
+  exists o5, k5. split; [|rewrite T5, T4, T3, rev_bad_cons; reflexivity].
   change ([60; 47] ++ (c :: r) ++ [62] ++ rest) with (60 :: 47 :: c :: r ++ Q1).
   eapply xsteps_trans; [exact S1|]. eapply xsteps_trans; [exact S2|]. eapply xsteps_trans; [exact S3|].
   eapply xsteps_trans; [exact S4|exact S5].
